@@ -140,7 +140,9 @@ pub fn run(ctx: &mut Ctx) {
                 let mut steps = 0;
                 for _ in 0..nb {
                     if rng.chance(1, 3) { s.push_str("> a note\n\n"); continue; }
-                    let target = match rng.below(6) { 0 => format!("@&({})mix{{}}", 1 + rng.below(steps + 2)), 1 => format!("@&(~{})mix{{}}", 1 + rng.below(steps + 2)), 2 => format!("@&(={})mix{{}}", 1 + rng.below(sec + 2)), 3 => format!("@&(=~{})mix{{}}", 1 + rng.below(sec + 2)), 4 => "@flour{1%kg} and @&flour{}".to_string(), _ => "@salt{}".to_string() };
+                    let target = match rng.below(7) { 0 => format!("@&({})mix{{}}", 1 + rng.below(steps + 2)), 1 => format!("@&(~{})mix{{}}", 1 + rng.below(steps + 2)), 2 => format!("@&(={})mix{{}}", 1 + rng.below(sec + 2)), 3 => format!("@&(=~{})mix{{}}", 1 + rng.below(sec + 2)), 4 => "@flour{1%kg} and @&flour{}".to_string(),
+                        5 => rng.pick_str(&["@salt{} then @&?salt{}", "#pan{} then #&-pan{}", "@-oil{} then @&oil{2%ml} and @&?oil{}", "@Ñora{2} then @&ñora{}", "@egg{} then @&@egg{}", "#pot{} and #&pot{}(note)", "@milk{1%l}(cold) and @&milk{}(warm)"]).to_string(),
+                        _ => "@salt{}".to_string() };
                     s.push_str(&format!("Step with {target} here.\n\n"));
                     steps += 1;
                 }
